@@ -428,6 +428,15 @@ func errIs(err, target iface) bool {
 
 func mutexPtr(v value) *value { return v.(*value) }
 
+// lookupMethodOrNil finds an exported method by name, nil if the type has none.
+func (e *Exec) lookupMethodOrNil(t types.Type, name string) *ssa.Function {
+	sel := e.prog.MethodSets.MethodSet(t).Lookup(nil, name)
+	if sel == nil {
+		return nil
+	}
+	return e.prog.MethodValue(sel)
+}
+
 func init() {
 	nop := func(e *Exec, fn *ssa.Function, args []value) value {
 		res := fn.Signature.Results()
@@ -436,9 +445,40 @@ func init() {
 		}
 		return zero(res)
 	}
+	// glog at the always-on levels formats its arguments: the text goes
+	// nowhere, but String()/Error() of the arguments are called (a String
+	// method that takes a lock is part of the behaviour of the call site)
+	logFmt := func(e *Exec, fn *ssa.Function, args []value) value {
+		for _, a := range args {
+			vs, ok := a.([]value)
+			if !ok {
+				continue
+			}
+			for _, x := range vs {
+				i, ok := x.(iface)
+				if !ok || i.t == nil {
+					continue
+				}
+				if _, nat := i.v.(nativeObj); nat {
+					continue
+				}
+				for _, mn := range []string{"Error", "String"} {
+					if m := e.lookupMethodOrNil(i.t, mn); m != nil && m.Signature.Params().Len() == 0 && isMtailPkg(m.Package()) {
+						e.call(m, []value{i.v})
+						break
+					}
+				}
+			}
+		}
+		return nil
+	}
 	for _, n := range []string{
 		"github.com/golang/glog.Info", "github.com/golang/glog.Infof", "github.com/golang/glog.Infoln",
 		"github.com/golang/glog.Warning", "github.com/golang/glog.Warningf", "github.com/golang/glog.Error", "github.com/golang/glog.Errorf",
+	} {
+		stubs[n] = logFmt
+	}
+	for _, n := range []string{
 		"(github.com/golang/glog.Verbose).Info", "(github.com/golang/glog.Verbose).Infof", "(github.com/golang/glog.Verbose).Infoln",
 		"runtime/debug.Stack", "fmt.Printf", "fmt.Println", "fmt.Print", "log.Printf", "log.Println",
 		"(*text/tabwriter.Writer).Init", "(*text/tabwriter.Writer).Flush",
@@ -453,9 +493,17 @@ func init() {
 	// sync
 	stubs["(*sync.RWMutex).RLock"] = func(e *Exec, fn *ssa.Function, args []value) value {
 		l := e.lockOf(mutexPtr(args[0]))
-		e.block("RLock", func() bool { return !l.writer })
+		e.block("RLock", func() bool { return !l.writer && l.writersWaiting == 0 })
 		l.readers++
 		return nil
+	}
+	stubs["(*sync.RWMutex).TryRLock"] = func(e *Exec, fn *ssa.Function, args []value) value {
+		l := e.lockOf(mutexPtr(args[0]))
+		if !l.writer && l.writersWaiting == 0 {
+			l.readers++
+			return Bool{C: true}
+		}
+		return Bool{C: false}
 	}
 	stubs["(*sync.RWMutex).RUnlock"] = func(e *Exec, fn *ssa.Function, args []value) value {
 		l := e.lockOf(mutexPtr(args[0]))
@@ -467,7 +515,9 @@ func init() {
 	}
 	lock := func(e *Exec, fn *ssa.Function, args []value) value {
 		l := e.lockOf(mutexPtr(args[0]))
+		l.writersWaiting++
 		e.block("Lock", func() bool { return !l.writer && l.readers == 0 })
+		l.writersWaiting--
 		l.writer = true
 		return nil
 	}
